@@ -423,6 +423,10 @@ class NetRun:
         t_after = world.sim.time()
         markers = dev.markers[m0:]
         logic = [list(e) for e in world.logic_log[l0:]]
+        if self.flavour in ("tcp", "atcp"):
+            # the fake gateway device answers the TCP watchdog's version probes on its own (clock driven)
+            markers = [m for m in markers if not str(m[1][1]).startswith(PROBE_PREFIX)]
+            logic = [e for e in logic if not str(e[0]).startswith(PROBE_PREFIX)]
         writes = dev.writes[w0:]
         self.last_w = len(dev.writes)
         all_cbs = world.callbacks[cb0:]
@@ -1068,8 +1072,13 @@ class NetRun:
                 world.advance(op[1])
                 self._after_idle()
             elif kind == "clockjump":
-                world.sim.wall_skew += op[1]
-                self.faults["clock_jump"] = self.faults.get("clock_jump", 0) + 1
+                if self.flavour in ("tcp", "atcp"):
+                    # the TCP watchdog reads the same wall clock: a jump makes it drop and re-dial the
+                    # link (C20's business) and commands sent meanwhile are legitimately lost
+                    self.probe("clockjump_skipped_tcp")
+                else:
+                    world.sim.wall_skew += op[1]
+                    self.faults["clock_jump"] = self.faults.get("clock_jump", 0) + 1
             elif kind == "restart":
                 self.op_restart(op[1].get("late_line") if len(op) > 1 and isinstance(op[1], dict) else None)
             elif kind == "fault_tick":
